@@ -133,6 +133,11 @@ def oracle_run(cfg):
         ok, msg = tol_close(g, w, scale)
         if not ok:
             return dict(level_from_coarsest=lvl, detail=msg)
+    if cfg['seed'] % 3 == 0 and mode != 'reflect':
+        new = lambda: DWT1DForward(J=J, wave=wn, mode=lib_mode(cfg)) if cfg['kind'] == '1d' else DWTForward(J=J, wave=wave_arg(cfg, 'dec'), mode=lib_mode(cfg))
+        msg = pow2_homog(lambda dt: (lambda a, m=new().to(dt): m(a[0])), [torch.tensor(X)])
+        if msg:
+            return dict(detail=msg)
     return None
 
 
